@@ -191,6 +191,9 @@ func runCursorResume(c *fw.Case, prop string) {
 	ref := s.ref(out)
 	base := s.genRequest(out)
 	base.FinalBlocksOnly = false
+	if base.Stop == 0 {
+		base.Stop = s.H
+	}
 	if base.Stop < uint64(base.Start)+5 && uint64(base.Start)+5 <= s.H {
 		base.Stop = uint64(base.Start) + 5 + uint64(c.R.Intn(int(s.H-uint64(base.Start)-4)))
 	}
